@@ -5,6 +5,8 @@
 From Verif Require Import Lib.Base Decode.GoSlice Decode.GoSliceFacts Decode.Node Decode.NodeProofs
   Decode.ProofEntries Decode.ProofEntriesProofs Decode.RoundTrip Decode.Quote Decode.QuoteProofs
   Decode.KeyFormat Decode.KeyFormatProofs Decode.Misc Decode.MiscProofs Decode.Cbor Decode.CborProofs
+  Decode.More Decode.MoreProofs Decode.StreamDepth Decode.StreamDepthProofs Decode.Coverage Gen.DecoderInventory
+  Decode.CborValue Decode.CborValueProofs
   Gen.DecodeConsts Gen.QuoteConsts Gen.MiscConsts.
 
 Theorem gen_layout_expected :
@@ -311,3 +313,113 @@ Theorem cbor_examples :
   cbor_valid [162; 1; 2; 1; 3; 255] = WOk (5, 1).
 Proof. exact CborProofs.cbor_examples. Qed.
 Print Assumptions cbor_examples.
+
+(* ---------- growth round 3 ---------- *)
+(* Coverage tie to the source: every hand-written decoder found in go/ by the
+   generator (functions named (Sized)Unmarshal{Binary,BinaryWithTrailing,Text,Hex,
+   Base64,Bech32,PEM}; functions reading integers with encoding/binary; functions
+   indexing or re-slicing a []byte parameter) is either ported (Decode/Coverage.v
+   [ported]: model function + totality theorem + correspondence cases) or on the
+   reviewed list with its reason.  A new decoder in the source makes this fail,
+   and the unification error names it. *)
+Theorem decoder_inventory_covered : unclassified = [] /\ stale = [].
+Proof. split; vm_compute; reflexivity. Qed.
+Print Assumptions decoder_inventory_covered.
+
+Theorem hex_decode_total : forall s,
+  hex_decode s <> Panic /\ (forall b, hex_decode s = Ok b -> 2 * glen b = glen s).
+Proof. exact hex_decode_total_l. Qed.
+Print Assumptions hex_decode_total.
+
+(* X.UnmarshalHex / X.UnmarshalText (base64 outcome = oracle) *)
+Theorem decode_text_total : forall size kind b64 text s,
+  fst (unmarshal_hex size kind text s) <> Panic /\ snd (unmarshal_hex size kind text s) <= s /\
+  fst (unmarshal_b64 size kind b64 s) <> Panic /\
+  fst (unmarshal_hex_or_b64 size kind b64 text s) <> Panic.
+Proof. exact decode_text_total_l. Qed.
+Print Assumptions decode_text_total.
+
+(* EnclaveIdentity hex/text, aesm AttestationKeyID, QEIdentity.verify masks, Quantity binary *)
+Theorem decode_sgx_misc_total : forall decoded data rm rf rx ms msm att attm s, decoded <> Panic ->
+  fst (enclave_identity decoded s) <> Panic /\ fst (akid data s) <> Panic /\
+  fst (qe_masks rm rf rx ms msm att attm s) <> Panic /\ fst (quantity_unmarshal_binary data s) <> Panic.
+Proof. exact decode_sgx_misc_total_l. Qed.
+Print Assumptions decode_sgx_misc_total.
+
+(* pathbadger node database value format *)
+Theorem decode_pathbadger_total : forall data s,
+  fst (pb_ptr data s) <> Panic /\ fst (pb_node data s) <> Panic /\
+  snd (pb_node data s) <= s + 3 * glen data.
+Proof. exact decode_pathbadger_total_l. Qed.
+Print Assumptions decode_pathbadger_total.
+
+(* runtime-host / p2p message framing: 4 bytes allocated whatever the prefix declares *)
+Theorem frame_read_total : forall stream dec s,
+  fst (frame_read stream dec s) <> Panic /\ snd (frame_read stream dec s) <= s + 4 /\
+  (forall n, fst (frame_read stream dec s) = Ok n -> n <= maxMessageSize).
+Proof. exact frame_read_total_l. Qed.
+Print Assumptions frame_read_total.
+
+Theorem enum_text_total : forall table text, enum_text table text <> Panic.
+Proof. exact enum_text_total_l. Qed.
+Print Assumptions enum_text_total.
+
+Theorem gen_sigstruct_layout_expected :
+  sigstructSize = 1808 /\ Forall (fun ow => fst ow + snd ow <= sigstructSize) sigstruct_offs.
+Proof. exact MoreProofs.gen_sigstruct_layout_expected. Qed.
+Print Assumptions gen_sigstruct_layout_expected.
+
+Theorem sigstruct_reads_total : forall buf s, fst (sigstruct_reads sigstruct_offs buf s) <> Panic.
+Proof. exact sigstruct_reads_total_l. Qed.
+Print Assumptions sigstruct_reads_total.
+
+(* ---------- nesting depth of the CBOR stream decoder (known finding, by computed depth) ---------- *)
+Theorem stream_depth_unbounded : forall need,
+  decode_frames (repeat 1 (N.to_nat need)) need 0 = trickle_frames need.
+Proof. exact stream_depth_unbounded_l. Qed.
+Print Assumptions stream_depth_unbounded.
+
+Theorem stream_depth_le_reads : forall chunks need have,
+  decode_frames chunks need have <= N.of_nat (length chunks) + 1.
+Proof. exact decode_frames_le_chunks. Qed.
+Print Assumptions stream_depth_le_reads.
+
+Theorem death_depth_spec : forall maxstack frame base frames, 0 < frame -> base <= usable_stack maxstack ->
+  (overflows maxstack frame base frames = true <-> death_depth maxstack frame base < frames).
+Proof. exact death_depth_spec_l. Qed.
+Print Assumptions death_depth_spec.
+
+Theorem rhp_stack_overflow_reachable : forall frame base, 9 <= frame ->
+  exists need, need <= maxMessageSize /\
+    overflows defaultMaxStack frame base (decode_frames (repeat 1 (N.to_nat need)) need 0) = true.
+Proof. exact rhp_stack_overflow_reachable_l. Qed.
+Print Assumptions rhp_stack_overflow_reachable.
+
+(* ---------- CBOR: accept/reject verdict of cbor.Unmarshal(data, &any) as a total function ----------
+   validity pass (Cbor.v) + the checks made while building the value (UTF-8 text,
+   hashable and non-duplicate map keys).  SPECIFICATION of the third-party
+   decoder, tied to it by the correspondence stream only (exact verdict unless a
+   map has a float key, where the model answers None). *)
+Theorem cbor_unmarshal_verdict_total : forall data, cbor_unmarshal_verdict data <> WFuel.
+Proof. exact cbor_unmarshal_verdict_total_l. Qed.
+Print Assumptions cbor_unmarshal_verdict_total.
+
+Theorem cbor_verdict_refines_valid : forall data e,
+  cbor_valid data = WErr e -> cbor_unmarshal_verdict data = WOk (Some false).
+Proof. exact cbor_verdict_refines_valid_l. Qed.
+Print Assumptions cbor_verdict_refines_valid.
+
+Theorem cbor_verdict_examples :
+  cbor_unmarshal_verdict [162; 1; 2; 1; 3] = WOk (Some false) /\
+  cbor_unmarshal_verdict [162; 1; 2; 24; 1; 3] = WOk (Some false) /\
+  cbor_unmarshal_verdict [162; 1; 2; 225; 3] = WOk (Some false) /\
+  cbor_unmarshal_verdict [162; 1; 2; 32; 3] = WOk (Some true) /\
+  cbor_unmarshal_verdict [161; 65; 0; 1] = WOk (Some false) /\
+  cbor_unmarshal_verdict [161; 128; 1] = WOk (Some false) /\
+  cbor_unmarshal_verdict [98; 195; 40] = WOk (Some false) /\
+  cbor_unmarshal_verdict [98; 195; 169] = WOk (Some true) /\
+  cbor_unmarshal_verdict [162; 246; 1; 247; 2] = WOk (Some false) /\
+  cbor_unmarshal_verdict [161; 249; 60; 0; 1] = WOk None /\
+  cbor_unmarshal_verdict [1; 255; 255] = WOk (Some true).
+Proof. exact CborValueProofs.cbor_verdict_examples. Qed.
+Print Assumptions cbor_verdict_examples.
